@@ -18,7 +18,7 @@ TRUSTED_BASE = ['io.TextIOWrapper/BytesIO capture streams and the formatter\'s p
                 'only the order of tokens and failure/error headers in the real stdout / stderr is compared']
 ASSUMPTIONS = ['tests write through sys.stdout / sys.stderr (objects looked up at write time), not through file descriptors',
                'in-process runs only (a child process re-binds sys.stderr by design)']
-PHN = {'setUp': (0, 0), 'body': (1, 0), 'tearDown': (3, 0)}
+PHN = {'setUp': (0, 0), 'body': (1, 0), 'tearDown': (3, 0), 'after_redirect': (5, 0)}
 KINDS = [{}, {'body': 'fail'}, {'body': 'error'}, {'deco_skip': True}, {'setUp': 'skip'}, {'body': 'skip'},
          {'xf': True, 'body': 'fail'}, {'xf': True}, {'subs': ['fail', 'ok', 'error']}, {'tearDown': 'error'},
          {'body': 'fail', 'tearDown': 'error'}, {'cleanups': ['error', 'ok']}, {'subs': ['skip', 'fail']}]
@@ -27,16 +27,20 @@ LAYER = [{'name': 'La', 'bases': [], 'kind': 'instance',
 TOK = re.compile(r'TOK_(\d+)_|(?:Failure|Error) in test test_(\d+)')
 
 
-def add_writes(rng, tests):
+def add_writes(rng, tests, buffered=True):
     tok = 1
     for i, T in enumerate(tests):
         if T.get('deco_skip'):
             continue
         wr = {}
         phases = ['setUp', 'body', 'tearDown'] + ['cleanup%d' % j for j in range(len(T.get('cleanups', [])))]
+        if buffered and T.get('subs') and not T.get('xf') and rng.random() < 0.5:
+            T['redirect_sub'] = True
+            phases.append('after_redirect')
         for ph in phases:
             if rng.random() < 0.8:
-                stream = rng.choice(['stdout', 'stdout', 'stdout', 'print', 'stdout.buffer', 'stderr'])
+                # contextlib.redirect_stdout re-installs sys.stdout only: what follows it is written to stdout (the model has one switch)
+                stream = rng.choice(['stdout', 'stdout', 'stdout', 'print', 'stdout.buffer'] + ([] if (T.get('redirect_sub') and ph not in ('setUp', 'body')) else ['stderr']))
                 text = 'TOK_%d_' % tok + rng.choice(['', '\n', ' more text\n'])
                 wr[ph] = [[stream, text]]
                 if rng.random() < 0.15:
@@ -47,7 +51,8 @@ def add_writes(rng, tests):
 
 
 def mk(rng, kinds, opts):
-    tests = add_writes(rng, [dict(k, layer=0) for k in kinds])
+    # without --buffer the runner prints through whatever sys.stdout the test has installed: redirecting tests only with --buffer
+    tests = add_writes(rng, [dict(k, layer=0) for k in kinds], buffered='--buffer' in opts)
     return {'layers': LAYER, 'tests': tests, 'options': opts}
 
 
@@ -118,9 +123,10 @@ def to_coq(c, o):
         ident = all(all(r[4]) for r in o['trace'] if r[1] in ('testSetUp', 'testTearDown'))
         restored = all(o['std_restored'])
         aborted = o['aborted'] is not None
-    return ('{| cbuffer := %s; ctests := %s; writes := %s; err_toks := %s; o_out := %s; o_err := %s; o_ident := %s; '
+    return ('{| cbuffer := %s; ctests := %s; redirects := %s; writes := %s; err_toks := %s; o_out := %s; o_err := %s; o_ident := %s; '
             'o_restored := %s; o_aborted := %s |}' % (
-                g_bool('--buffer' in c['options']), tl, g_list(writes), g_nats(errt),
+                g_bool('--buffer' in c['options']), tl, g_nats([i for i, T in enumerate(c['tests']) if T.get('redirect_sub')]),
+                g_list(writes), g_nats(errt),
                 g_list(['(%d, %d)' % e for e in out]), g_nats(err), g_bool(ident), g_bool(restored), g_bool(aborted)))
 
 
@@ -149,8 +155,8 @@ def shrink_candidates(c):
         for ph in list(T.get('writes', {})):
             w2 = {k: v for k, v in T['writes'].items() if k != ph}
             yield dict(c, tests=ts[:i] + [dict(T, writes=w2)] + ts[i + 1:])
-        for key in ('subs', 'cleanups', 'setUp', 'tearDown', 'body', 'xf'):
-            if key in T:
+        for key in ('subs', 'cleanups', 'setUp', 'tearDown', 'body', 'xf', 'redirect_sub'):
+            if key in T and not (key == 'subs' and T.get('redirect_sub')):
                 yield dict(c, tests=ts[:i] + [{k: v for k, v in T.items() if k != key}] + ts[i + 1:])
 
 
